@@ -23,7 +23,8 @@ func init() {
 			"(R4) Executable = (permissionsMode = Portable) ∧ preservesExecutability ∧ anyExecutableBitSet(mode) [truth table]; " +
 			"(R5) the recorded digest is the cached digest exactly when the cache-match flag held, otherwise hasher.Sum(nil) taken after hasher.Reset and a copy that reported no error and whose byte count equals metadata.Size; " +
 			"(R6, symlink-mode table) Portable → symbolicLink(enforce=true), Ignore → Untracked, POSIXRaw → symbolicLink(enforce=false); " +
-			"(R7) Directory.ReadSymbolicLink accepts a readlinkat result only if it is strictly shorter than the buffer (otherwise it grows the buffer). " +
+			"(R7) Directory.ReadSymbolicLink accepts a readlinkat result only if it is strictly shorter than the buffer (otherwise it grows the buffer); " +
+			"(R8, no legal name refused) the name guard every open/readlink of a child goes through (ensureValidName) rejects only under an EXACT comparison with \".\" or \"..\" (or the empty name) or a search for a path separator — a prefix/suffix/substring test would turn legal entries such as \"..data\" into Problematic ones. " +
 			"Not decided: agreement with an independent walk of a real tree; stat/readdir semantics.",
 		Assumptions: []string{"readlinkat truncates silently when the buffer is too small"},
 		Run:         runC12,
@@ -36,6 +37,7 @@ func runC12(c *eng.Ctx) {
 	if dir == nil || file == nil {
 		return
 	}
+	c12NameGuard(c)
 	kinds, _ := c.P.ConstsOfType(corePkg, "EntryKind")
 
 	// The content map.
